@@ -273,8 +273,10 @@ def run(pid, spec, tier, seed, wd, only, rebase, t_start):
         'wall_s': round(wall, 1),
         'violations': len(real_viol),
     }
-    os.makedirs(os.path.join(ROOT, 'evidence'), exist_ok=True)
-    with open(os.path.join(ROOT, 'evidence', pid + '.json'), 'w') as f:
+    # (VERIF_EVIDENCE_DIR: used when the checks are pointed at seeded mutants, so that the committed evidence stays that of the real tree)
+    ev_dir = os.environ.get('VERIF_EVIDENCE_DIR') or os.path.join(ROOT, 'evidence')
+    os.makedirs(ev_dir, exist_ok=True)
+    with open(os.path.join(ev_dir, pid + '.json'), 'w') as f:
         json.dump(ev, f, indent=1)
     for l in out_lines: print(l)
     for j, reason, log in undecided:
